@@ -18,7 +18,7 @@ RSIZE = {0: 0, 1: 10, 2: 30000, 3: 65536}
 def run(ctx):
     quick = ctx.quick()
     ctx.tlc_expect_ok("MeekLite", "MeekLite_MC.cfg", label="meek worker/select/coalesce/cap/close: exhaustive (safety + liveness)", timeout=1200)
-    sims, _ = ctx.tlc_emit("MeekLite", "MeekLite_sim.cfg", tag="SIM", mode="simulate", simulate="num=%d" % (150 if quick else 1500), depth=40,
+    sims, _ = ctx.tlc_emit("MeekLite", "MeekLite_sim.cfg", tag="SIM", mode="simulate", simulate="num=%d" % (150 if quick else 6000), depth=40,
                            label="simulation behaviours (environment scripts)", timeout=600)
     seen, scen = set(), []
     for _n, hist in sims:
@@ -33,13 +33,13 @@ def run(ctx):
         hk = json.dumps(h)[:-1]
         if not any(json.dumps(o).startswith(hk) for o in kept):
             kept.append(h)
-    for i, h in enumerate(kept[: (60 if quick else 600)]):
+    for i, h in enumerate(kept[: (60 if quick else 2500)]):
         steps = [{"a": x["a"], "n": (WSIZE[x["n"]] if x["a"] == "write" else RSIZE.get(x["n"], 0))} for x in h]
         scen.append({"id": "sim%d" % i, "steps": steps, "front": i % 5 == 0, "src": "tlc-simulate"})
     if len(scen) < 20:
         raise Inconclusive("only %d simulation scenarios" % len(scen))
     rng = random.Random(ctx.seed * 22695477 + 16)
-    for i in range(40 if quick else 400):
+    for i in range(40 if quick else 1500):
         steps = []
         for _ in range(rng.randrange(3, 30)):
             c = rng.random()
@@ -56,7 +56,7 @@ def run(ctx):
     for i, (k, n) in enumerate([(40, 1), (20, 5000), (17, 65536), (3, 200000)]):
         scen.append({"id": "burst%d" % i, "steps": [{"a": "write", "n": n}] * k + [{"a": "respond", "n": 10}] * 3, "front": False, "src": "burst"})
     # short application reads: a response is consumed in pieces while the next responses arrive
-    for i in range(20 if quick else 200):
+    for i in range(20 if quick else 800):
         steps, tot = [], 0
         for _ in range(rng.randrange(4, 24)):
             c = rng.random()
